@@ -125,6 +125,19 @@ pub(super) fn optimize(
     return None;
   }
   let only_relevant_induction_loop_variables = relevant_derived_induction_variables[0];
+  // The new guard value is `multiplier * guard + immediate`: give up when it is known to overflow.
+  if let (
+    PotentialLoopInvariantExpression::Int(multiplier),
+    PotentialLoopInvariantExpression::Int(guard_value),
+    PotentialLoopInvariantExpression::Int(immediate),
+  ) = (
+    &only_relevant_induction_loop_variables.multiplier,
+    &optimizable_while_loop.basic_induction_variable_with_loop_guard.guard_expression,
+    &only_relevant_induction_loop_variables.immediate,
+  ) && multiplier.checked_mul(*guard_value).and_then(|v| v.checked_add(*immediate)).is_none()
+  {
+    return None;
+  }
   let added_invariant_expression_in_loop = merge_invariant_multiplication_for_loop_optimization(
     &optimizable_while_loop.basic_induction_variable_with_loop_guard.increment_amount,
     &only_relevant_induction_loop_variables.multiplier,
